@@ -22,6 +22,8 @@ trait Inner<Ix: IndexType>: Clone + Send + Sync + std::fmt::Debug + 'static {
     where
         Self: petgraph::visit::Visitable + Sized;
     fn from_edges(n: usize, edges: &[(usize, usize)]) -> Self;
+    /// the same graph behind two removed low-index nodes where the type keeps indices stable (node_bound > node_count)
+    fn from_edges_holes(n: usize, edges: &[(usize, usize)]) -> Self;
     fn try_from_graph(g: Self) -> Result<Acyclic<Self>, usize>
     where
         Self: petgraph::visit::Visitable + Sized;
@@ -50,6 +52,20 @@ macro_rules! impl_inner {
                 }
                 for &(a, b) in edges {
                     g.add_edge(NodeIndex::new(a), NodeIndex::new(b), 1);
+                }
+                g
+            }
+            fn from_edges_holes(n: usize, edges: &[(usize, usize)]) -> Self {
+                let k = if $stable { 2 } else { 0 };
+                let mut g = $T::with_capacity(0, 0);
+                for i in 0..n + k {
+                    g.add_node(i as u8);
+                }
+                for &(a, b) in edges {
+                    g.add_edge(NodeIndex::new(a + k), NodeIndex::new(b + k), 1);
+                }
+                for d in (0..k).rev() {
+                    g.remove_node(NodeIndex::new(d));
                 }
                 g
             }
@@ -201,7 +217,7 @@ impl Machine for M<$G, $Ix> {
         format!("Acyclic<{}<{}>>-{}nodes-{}edges", <$G as Inner<$Ix>>::NAME, self.ixname, self.max_nodes, self.max_edges)
     }
     fn bounds(&self) -> String {
-        format!("at most {} live nodes, {} edges, node ids below {}; arguments: every live pair, every edge id and node id up to one beyond the bound (absent / already removed); initial states: new() and try_from_graph of every acyclic digraph on <= {} nodes", self.max_nodes, self.max_edges, self.max_ids, if self.with_graph_inits { 3 } else { 0 })
+        format!("at most {} live nodes, {} edges, node ids below {}; arguments: every live pair, every edge id and node id up to one beyond the bound (absent / already removed); initial states: new(), try_from_graph of every acyclic digraph on <= {} nodes and TryFrom of the same digraphs stored behind two removed low-index nodes (StableDiGraph: node_bound > node_count)", self.max_nodes, self.max_edges, self.max_ids, if self.with_graph_inits { 3 } else { 0 })
     }
     fn inits(&self) -> Vec<St<$G>> {
         let mut v = vec![St { a: <$G as Inner<$Ix>>::acy_new() }];
@@ -211,6 +227,10 @@ impl Machine for M<$G, $Ix> {
                 let (n, e) = f.get(i);
                 if e.len() <= self.max_edges {
                     if let Ok(a) = <$G as Inner<$Ix>>::try_from_graph(<$G as Inner<$Ix>>::from_edges(n, &e)) {
+                        v.push(St { a });
+                    }
+                    // the TryFrom route, from a graph with vacancies below its live nodes
+                    if let Ok(a) = <$G as Inner<$Ix>>::try_from_trait(<$G as Inner<$Ix>>::from_edges_holes(n, &e)) {
                         v.push(St { a });
                     }
                 }
@@ -461,7 +481,7 @@ fn main() {
     main_check(
         Spec {
             prop: "C14",
-            rule: "E1: BFS to the fixpoint over operation histories of Acyclic<DiGraph> and Acyclic<StableDiGraph> (three index widths); state = Debug dump (inner graph + order map) plus the stored position of every slot; initial states new() and try_from_graph of every acyclic digraph on <=3 nodes; non-trivial = at least one edge".into(),
+            rule: "E1: BFS to the fixpoint over operation histories of Acyclic<DiGraph> and Acyclic<StableDiGraph> (three index widths); state = Debug dump (inner graph + order map) plus the stored position of every slot; initial states new(), try_from_graph of every acyclic digraph on <=3 nodes and TryFrom of the same digraphs stored with vacancies below the live nodes; non-trivial = at least one edge".into(),
             explanation: "in every state: inner graph acyclic (closure), nodes_iter = live nodes once, get_position injective with at_position its inverse, range(..) and every range(p..=q) consistent, every edge forward in the order, is_valid_edge(a,b) <=> a!=b and b does not reach a for all live pairs; every insertion is accepted exactly when valid with the right error kind, a rejected insertion and removals of absent nodes/edges leave the complete observation unchanged; the whole check is repeated without debug assertions".into(),
             assumptions: vec!["universe bounded (families[*].bounds)".into(), "the inner graph types are taken as correct here (C01/C02 decide them)".into()],
             min_outcomes: 50,
